@@ -12,8 +12,9 @@ Pairs(s) == [i \in 1..Len(s) |-> <<s[i][1], s[i][2]>>]
 OutEq(e, exp) == e.err = "" /\ Pairs(e.out) = exp
 OrigVal(k) == LET S == {i \in 1..Len(orig) : orig[i][1] = k} IN IF S = {} THEN "ABSENT" ELSE orig[CHOOSE i \in S : TRUE][2]
 \* keys written with an empty / nil value have a zero checksum by format design: they are only protected against damage that a record
-\* header detects (byte alterations, truncation), not against whole records being exchanged
-DamageOkFor(kind, o, outcome) == IF o \in {"EMPTY", "NIL"} /\ kind = "swap" THEN TRUE ELSE DamageOk(o, outcome)
+\* header detects - byte alterations and truncation of UNCOMPRESSED tables (an empty value has no payload bytes there). Exchanged whole
+\* records and the (unprotected) compressed payload of an empty value are outside the property's claim.
+DamageOkFor(kind, o, outcome) == IF o \in {"EMPTY", "NIL"} /\ (kind = "swap" \/ Ev.dcomp # 0) THEN TRUE ELSE DamageOk(o, outcome)
 ScanGenuine(kind, out) == /\ \A i \in 1..Len(out) : OrigVal(out[i][1]) # "ABSENT" /\ DamageOkFor(kind, OrigVal(out[i][1]), out[i][2])
                     /\ \A i \in 1..(Len(out) - 1) : out[i][1] < out[i + 1][1]
 Check ==
